@@ -23,6 +23,7 @@ type Cfg struct {
 	ChunkMax       int           // 0 = deliver everything available at once; else random 1..ChunkMax
 	ParkWrites     bool          // WS writes are scheduling points
 	Rate           int64         // bytes per second per direction (0 = unlimited): slow links
+	HTTPWindow     int           // receive window of plain HTTP connections in bytes (0 = unlimited)
 }
 
 type DialEvent struct {
@@ -162,6 +163,7 @@ type stream struct {
 	rbuf    []byte
 	rerr    error
 	rnotify chan struct{}
+	wnotify chan struct{} // writer waiting for window space
 
 	nextAt     time.Time // bandwidth limit: no delivery before this time
 	pendingEOF bool      // sender closed: EOF after segs drain
@@ -341,6 +343,12 @@ func (e *Endpoint) Read(b []byte) (int, error) {
 		if len(st.rbuf) > 0 {
 			k := copy(b, st.rbuf)
 			st.rbuf = st.rbuf[k:]
+			if st.wnotify != nil {
+				select {
+				case st.wnotify <- struct{}{}:
+				default:
+				}
+			}
 			n.mu.Unlock()
 			return k, nil
 		}
@@ -401,6 +409,30 @@ func (e *Endpoint) Write(b []byte) (int, error) {
 			}
 			continue
 		}
+		if win := n.Cfg.HTTPWindow; win > 0 && !e.pipe.WS && !n.S.Free() && !st.discard && !st.blackhole && st.rerr == nil {
+			// TCP flow control: the sender blocks while the receiver's window is full
+			pend := len(st.rbuf)
+			for _, sg := range st.segs {
+				pend += len(sg.data)
+			}
+			if pend >= win {
+				if st.wnotify == nil {
+					st.wnotify = make(chan struct{}, 1)
+				}
+				c := st.wnotify
+				n.Probes["write-blocked-by-flow-control"]++
+				n.mu.Unlock()
+				dl := e.wdl.wait()
+				select {
+				case <-c:
+				case <-dl:
+					return 0, timeoutError{}
+				case <-e.closeC:
+					return 0, net.ErrClosed
+				}
+				continue
+			}
+		}
 		st.wOff += int64(len(b))
 		nf0, clean0 := len(st.Tap.Frames), !st.Tap.Pending()
 		st.Tap.Feed(b)
@@ -448,6 +480,13 @@ func (e *Endpoint) Close() error {
 	e.out.pendingEOF = true
 	e.in.discard = true
 	e.in.segs = nil
+	e.in.rbuf = nil
+	if e.in.wnotify != nil {
+		select {
+		case e.in.wnotify <- struct{}{}:
+		default:
+		}
+	}
 	if e.pipe.EndedAt == 0 {
 		e.pipe.EndedAt = n.S.Now()
 	}
@@ -462,6 +501,12 @@ func (st *stream) notify() {
 	select {
 	case st.rnotify <- struct{}{}:
 	default:
+	}
+	if st.wnotify != nil {
+		select {
+		case st.wnotify <- struct{}{}:
+		default:
+		}
 	}
 }
 
